@@ -133,7 +133,7 @@ CHECKS["C11"] = dict(
 CHECKS["C17"] = dict(
     engine="E1-config-lattice",
     technique="enumeration of method x density-fitting x feature-family x interpolator x molecule states, every nuclear coordinate decided by Richardson differences of converged SCF energies",
-    text="For each state (RKS/UKS incl. an open-shell doublet, density fitting on/off, semilocal GGA and meta-GGA, NLDF versions j / ij / k at both semilocal levels, both onsite interpolators) the SCF is converged to 1e-12 with a synthetic mapped functional, and EVERY component of the analytic gradient with grid response (3 natm components: a complete basis of the force vector) is compared with Richardson-extrapolated central differences of converged SCF energies at displaced geometries to 1e-6 Ha/Bohr (observed 1e-10); the forces must sum to zero and exert no torque to 1e-7; without grid response the gradient must agree with the full-response one to 3x the fixed-grid error PySCF's own PBE gradient shows on the same molecule and grid; SDMX-containing models must raise NotImplementedError.",
+    text="For each state (RKS/UKS incl. an open-shell doublet, density fitting on/off, semilocal GGA and meta-GGA, NLDF versions j / ij / k at both semilocal levels, both onsite interpolators) the SCF is converged to 1e-12 with a synthetic mapped functional, and EVERY component of the analytic gradient with grid response (3 natm components: a complete basis of the force vector) is compared with Richardson-extrapolated central differences of converged SCF energies at displaced geometries to 1e-6 Ha/Bohr (observed 1e-10); the forces must sum to zero to 1e-7 (net torque: quadrature-level bound only, the Lebedev orientations do not rotate with the molecule). Relations that hold exactly for BOTH gradient variants (with and without grid response): exchanging the spin labels of a polarised solution leaves the forces unchanged (1e-8); a closed-shell solution through the unrestricted gradient gives the restricted forces (1e-8); the XC gradient layer functions give the same result when the grid is processed in minimal blocks (1e-9). The gradient without grid response has no sharp value oracle: it must stay within 2e-2 of the full-response gradient on the coarse discretisation (measured <= 6.9e-3) and, in the thorough tier, within 1.5e-3 on a refined discretisation (version k excluded: not converged at affordable settings). SDMX-containing models must raise NotImplementedError.",
     note="Small molecules and coarse grids (the identity is grid independent when grid response is included); SCF non-convergence is a harness error.",
     design="5/C17",
 )
